@@ -154,6 +154,7 @@ func c17Body(r *simcore.Run) {
 	}
 	r.Sig("cfg", c.Multi, c.Comp, c.FileSize, c.WBuf, c.Retry, c.Auto, c.Prealloc, c.MaxOpen, c.Faults)
 
+	r.Sched.EnablePoint("multiapp-opened")
 	s.path = r.Dir("c17-0")
 	r.Disk.Attach(s.path)
 	r.Disk.FailWritePM, r.Disk.FailSyncPM, r.Disk.FailReadPM = c.FailWritePM, c.FailSyncPM, c.FailReadPM
@@ -184,7 +185,7 @@ func c17Body(r *simcore.Run) {
 		s.curDur = c17Dur{s.synced, s.syncedOK, s.minSince, s.syncFailed}
 		s.opStart = r.Disk.NumOps()
 		s.step()
-		r.Sched.Yield("c17-op")
+		r.Yield("c17-op")
 	}
 	// final: verify everything, close, reopen, verify again
 	s.verifyAll("final")
